@@ -62,7 +62,7 @@ def consume(kind, call):
     except BaseException as e:      # noqa
         return ['exc', type(e).__name__, 'call']
     try:
-        if kind == 'gen':
+        if kind in ('gen', 'tgen'):
             items = []
             while True:
                 try:
@@ -117,6 +117,7 @@ BODY = {
     'coro': '    log.append(("{tag}", canon(({names}))))\n    {fail}\n    return ("{tag}", canon(({names})))\n',
     'agen': '    log.append(("{tag}", canon(({names}))))\n    yield ("{tag}", 1)\n    {fail}\n    yield canon(({names}))\n',
 }
+BODY['tgen'] = BODY['gen']      # a generator function marked @types.coroutine
 
 
 def sig_names(sig):
@@ -141,6 +142,8 @@ def make_fn(spec, log, first_param=None):
     body = BODY[spec['kind']].format(tag=spec['tag'], names=''.join(n + ', ' for n in names), fail=fail)
     ns = dict(log=log, canon=canon, EXC=EXC)
     exec(compile(head + doc + body, '<c03:%s>' % spec['name'], 'exec'), ns)
+    if spec['kind'] == 'tgen':
+        return types.coroutine(ns[spec['name']])
     return ns[spec['name']]
 
 
@@ -370,7 +373,8 @@ def kind_code(f):
     if inspect.iscoroutinefunction(f):
         return 'coro'
     if inspect.isgeneratorfunction(f):
-        return 'gen'
+        code = getattr(f, '__code__', None)
+        return 'tgen' if (getattr(code, 'co_flags', 0) & inspect.CO_ITERABLE_COROUTINE) else 'gen'
     return 'func'
 
 
@@ -413,6 +417,7 @@ REG_SOURCES = {
     'recur': 'def f(x, y=1):\n    return y if x <= 0 else f(x - 1, y * 2)\n',
     'gen': 'def f(x, y=1):\n    for i in range(x):\n        got = yield i * y\n        if got:\n            y += got\n    return "done"\n',
     'coro': 'async def f(x, y=1):\n    return x * y + 1\n',
+    'tgen': 'import types\n@types.coroutine\ndef f(x, y=1):\n    for i in range(x):\n        got = yield i * y\n    return "tdone"\n',
     'agen': 'async def f(x, y=1):\n    for i in range(x):\n        yield i + y\n',
     'lambda': 'f = lambda x, y=2: (x, y, x ** y)\n',
     'nested': 'def f(x, y=1):\n    def g(a):\n        return a + y\n    return [g(i) for i in range(x)]\n',
@@ -449,7 +454,7 @@ def run_reg(c):
     via ('add_function' | 'add_callable' | 'call'), enabled (check under `with prof:` too)"""
     import line_profiler
     src = REG_SOURCES[c['src']]
-    kind = c['src'] if c['src'] in ('gen', 'coro', 'agen') else 'func'
+    kind = {'tgen': 'gen'}.get(c['src'], c['src']) if c['src'] in ('gen', 'coro', 'agen', 'tgen') else 'func'
 
     def fresh():
         ns = {}
